@@ -189,8 +189,17 @@ Fixpoint tag_eqb (a b : tag) : bool :=
 
 Definition lookup (tbl : list (list nat)) (j : nat) : list nat := nth j tbl [].
 
+(* everything the optimiser of j reads: the conditioners of j, their conditioners, ... (sorted, without repetition) *)
+Fixpoint raw_ancestors (conds : nat -> list nat) (fuel j : nat) : list nat :=
+  match fuel with
+  | 0 => []
+  | S f => flat_map (fun c => c :: raw_ancestors conds f c) (conds j)
+  end.
+Definition ancestors (conds : nat -> list nat) (j : nat) : list nat :=
+  filter (fun i => existsb (Nat.eqb i) (raw_ancestors conds (S j) j)) (seq 0 j).
+
 Definition Ftag (conds : nat -> list nat) (j d : nat) (p0 : tag) (env : nat -> tag) : tag :=
-  Fitted j d p0 (map env (conds j)).
+  Fitted j d p0 (map env (ancestors conds j)).
 
 Definition run_tag (n : nat) (ctbl : list (list nat)) (ops : list (nat * nat)) : res (st tag nat) :=
   run tag nat n (lookup ctbl) (Ftag (lookup ctbl)) ops (init tag nat (lookup ctbl) Start).
